@@ -23,7 +23,8 @@ RULE = (
     "from {complete, retry-exceeded, no-pack, raise-at-step k}, 0..12 timed ops from {inject runtime event "
     "(ping received/missed/no-response, RF error, too many RF errors, retry exceeded, pack refreshed, water "
     "care error), reset, set-spa-info} issued from their own tasks, client-handler suspensions 0..1 s; "
-    "(B) full-stack fault/user-action scripts (as C09). Non-trivial = history with an error event, a reset or "
+    "(B) full-stack fault/user-action scripts (as C09); enumerated (layer A): every (discover, connect) outcome pair x every op "
+    "sequence up to depth 1 (quick) / 2 (thorough) over 18 timed ops. Non-trivial = history with an error event, a reset or "
     ">=2 connections; distinct by canonical case."
 )
 ASSUMPTIONS = [
@@ -196,6 +197,36 @@ def strategy(tier):
     return st.one_of(a, a, a, b)
 
 
+ENUM_D = ["found", "none", "raise"]
+ENUM_C = ["complete", "retry", "nopack", "raise0", "raise2", "raise4"]
+ENUM_OPS = [[g, "inject", k] for g in (0.05, 1.0) for k in ("ping", "missed", "noresp", "rferr", "toomany", "retry", "refreshed")] \
+    + [[g, w, ""] for g in (0.05, 1.0) for w in ("reset", "setinfo")]
+
+
+def enumerated(tier):
+    """layer A, systematically: every (discover outcome, connect outcome) x every op sequence up to depth 1 (quick) / 2
+    (thorough) over the op alphabet (7 runtime events + reset + set-spa-info, each right away or after the connection
+    settled), unsuspended client handler; the second connection attempt (after a reset) always completes"""
+    depth = 2 if tier == "thorough" else 1
+    seqs = [[]]
+    frontier = [[]]
+    for _ in range(depth):
+        frontier = [sq + [op] for sq in frontier for op in ENUM_OPS]
+        seqs += frontier
+    combos = [(d, c) for d in ENUM_D for c in ENUM_C]
+
+    def fn(i):
+        d, c = combos[i % len(combos)]
+        ops = seqs[i // len(combos)]
+        return {"k": "A", "discover": [d, "found"], "connect": [c, "complete"], "ops": [list(o) for o in ops], "suspend": [], "suspend_map": {}}
+
+    return len(combos) * len(seqs), fn
+
+
+def coverage_extra(tier):
+    return {"layer_A_enumeration": "all (discover, connect) outcome pairs x all op sequences up to depth %d over %d timed ops" % (2 if tier == "thorough" else 1, len(ENUM_OPS))}
+
+
 _SNAP = None
 
 
@@ -331,6 +362,8 @@ def _run_A(res, case):
             # no phase may be left open while the manager is settled
             settled = man.spa_state not in (S.LOCATING_SPAS, S.CONNECTING)
             check_lifecycle(res, man, "A", final=settled)
+            # abstract states visited (state, facade?, spa?, descriptors?): the histogram shows how far the reachable set is covered
+            info["abstract"] = {f"{d['state'].name}/{'F' if d['facade'] else '-'}{'S' if d['spa'] else '-'}{'D' if d['descriptors'] else '-'}" for d in man.delivered}
 
     try:
         W.run(main)
@@ -338,6 +371,8 @@ def _run_A(res, case):
         GeckoAsyncLocator.discover, GeckoAsyncSpa._connect = saved
     res.nontrivial = info["errors"] > 0 or info["connections"] >= 2
     res.label("layer-A", f"connections-{min(info['connections'], 3)}")
+    for a in sorted(info.get("abstract", ())):
+        res.label("abs:" + a)
 
 
 def _run_B(res, case):
